@@ -20,11 +20,18 @@ type Sample struct {
 
 // Less compares two samples by value.
 func (a Sample) Less(b Sample) bool {
+	if a.Data == b.Data {
+		// Break ties by label set, so that the result does not depend on iteration order.
+		return a.Set.Key() < b.Set.Key()
+	}
 	return math.IsNaN(a.Data) || a.Data < b.Data
 }
 
 // Greater compares two samples by value.
 func (a Sample) Greater(b Sample) bool {
+	if a.Data == b.Data {
+		return a.Set.Key() > b.Set.Key()
+	}
 	return math.IsNaN(a.Data) || a.Data > b.Data
 }
 
